@@ -562,6 +562,14 @@ class _Fold(ast.NodeTransformer):
 
     def visit_BinOp(self, node):
         self.generic_visit(node)
+        # "p" + "B" is "pB"
+        if isinstance(node.op, ast.Add) and isinstance(
+                node.left, ast.Constant) and isinstance(
+                    node.right, ast.Constant) and isinstance(
+                        node.left.value, str) and isinstance(
+                            node.right.value, str):
+            return ast.copy_location(
+                ast.Constant(node.left.value + node.right.value), node)
         if self._int(node.left) and self._int(node.right) and type(
                 node.op) in self._OPS:
             a, b = node.left.value, node.right.value
@@ -618,6 +626,22 @@ class _Fold(ast.NodeTransformer):
         ast.copy_location(out, node)
         ast.fix_missing_locations(out)
         return out
+
+    def visit_JoinedStr(self, node):
+        self.generic_visit(node)
+        # f"p{'B'}" is "pB"
+        parts = []
+        for v in node.values:
+            if isinstance(v, ast.Constant) and isinstance(v.value, str):
+                parts.append(v.value)
+            elif isinstance(v, ast.FormattedValue) and isinstance(
+                    v.value, ast.Constant) and isinstance(
+                        v.value.value, str) and v.conversion == -1 \
+                    and v.format_spec is None:
+                parts.append(v.value.value)
+            else:
+                return node
+        return ast.copy_location(ast.Constant("".join(parts)), node)
 
     def visit_UnaryOp(self, node):
         self.generic_visit(node)
@@ -912,6 +936,238 @@ def _own_continue(loop):
     return False
 
 
+def _simple_subject(e):
+    if isinstance(e, (ast.Name, ast.Constant)):
+        return True
+    if isinstance(e, ast.Attribute):
+        return _simple_subject(e.value)
+    return False
+
+
+class _NoLowering(Exception):
+    pass
+
+
+def _pattern_test(pat, subj, binds):
+    """the test a pattern makes on the (simple) subject expression; captures
+    are appended to binds as (name, expr)"""
+    from copy import deepcopy
+    S = lambda: deepcopy(subj)
+    if isinstance(pat, ast.MatchValue):
+        return ast.Compare(left=S(), ops=[ast.Eq()], comparators=[pat.value])
+    if isinstance(pat, ast.MatchSingleton):
+        return ast.Compare(left=S(), ops=[ast.Is()],
+                           comparators=[ast.Constant(value=pat.value)])
+    if isinstance(pat, ast.MatchAs):
+        if pat.pattern is None:
+            if pat.name is not None:
+                binds.append((pat.name, S()))
+            return None                      # always matches
+        t = _pattern_test(pat.pattern, subj, binds)
+        if pat.name is not None:
+            binds.append((pat.name, S()))
+        return t
+    if isinstance(pat, ast.MatchClass) and not pat.patterns:
+        t = ast.Call(func=ast.Name("isinstance", ast.Load()),
+                     args=[S(), pat.cls], keywords=[])
+        tests = [t]
+        for attr, sub in zip(pat.kwd_attrs, pat.kwd_patterns):
+            field = ast.Attribute(value=S(), attr=attr, ctx=ast.Load())
+            st_ = _pattern_test(sub, field, binds)
+            if st_ is not None:
+                tests.append(st_)
+        return tests[0] if len(tests) == 1 else ast.BoolOp(
+            op=ast.And(), values=tests)
+    if isinstance(pat, ast.MatchOr):
+        ts = []
+        for p_ in pat.patterns:
+            b2 = []
+            t = _pattern_test(p_, subj, b2)
+            if b2:
+                raise _NoLowering()
+            if t is None:
+                return None
+            ts.append(t)
+        return ast.BoolOp(op=ast.Or(), values=ts)
+    raise _NoLowering()
+
+
+def lower_match(tree):
+    """`match` statements made of value, singleton, class (no sub-patterns),
+    capture, wildcard, `as` and `|` patterns - also element-wise against a
+    tuple display of the same length - are the if/elif chain they
+    abbreviate"""
+    n = 0
+    counter = [0]
+
+    def lower(st):
+        subj = st.subject
+        pre = []
+        if isinstance(subj, ast.Tuple):
+            elems = []
+            for e in subj.elts:
+                if _simple_subject(e):
+                    elems.append(e)
+                else:
+                    counter[0] += 1
+                    nm = f"_subject{counter[0]}"
+                    pre.append(ast.Assign(
+                        targets=[ast.Name(nm, ast.Store())], value=e))
+                    elems.append(ast.Name(nm, ast.Load()))
+            whole = None
+        else:
+            elems = None
+            if _simple_subject(subj):
+                whole = subj
+            else:
+                counter[0] += 1
+                nm = f"_subject{counter[0]}"
+                pre.append(ast.Assign(targets=[ast.Name(nm, ast.Store())],
+                                      value=subj))
+                whole = ast.Name(nm, ast.Load())
+        branches = []
+        for c in st.cases:
+            binds = []
+            pat = c.pattern
+            if elems is not None and isinstance(pat, ast.MatchSequence) \
+                    and len(pat.patterns) == len(elems) and not any(
+                        isinstance(x, ast.MatchStar) for x in pat.patterns):
+                ts = [_pattern_test(p_, e, binds)
+                      for p_, e in zip(pat.patterns, elems)]
+                ts = [t for t in ts if t is not None]
+                test = None if not ts else (
+                    ts[0] if len(ts) == 1
+                    else ast.BoolOp(op=ast.And(), values=ts))
+            elif elems is not None and isinstance(pat, ast.MatchAs) and \
+                    pat.pattern is None and pat.name is None:
+                test = None
+            elif elems is None:
+                test = _pattern_test(pat, whole, binds)
+            else:
+                raise _NoLowering()
+            if c.guard is not None:
+                if binds:
+                    # the guard sees the captures: substitute them
+                    from .inline import _ParamSubst
+                    g = _ParamSubst({k: v for k, v in binds}).visit(c.guard)
+                else:
+                    g = c.guard
+                test = g if test is None else ast.BoolOp(
+                    op=ast.And(), values=[test, g])
+            body = [ast.Assign(targets=[ast.Name(k, ast.Store())], value=v)
+                    for k, v in binds] + list(c.body)
+            branches.append((test, body))
+        # build the chain from the back
+        chain = []
+        for test, body in reversed(branches):
+            if test is None:
+                chain = body
+            else:
+                chain = [ast.If(test=test, body=body, orelse=chain)]
+        out = pre + (chain or [ast.Pass()])
+        for x in out:
+            ast.copy_location(x, st)
+            ast.fix_missing_locations(x)
+        return out
+
+    for owner in list(ast.walk(tree)):
+        for fld in ("body", "orelse", "finalbody"):
+            lst = getattr(owner, fld, None)
+            if not isinstance(lst, list) or not lst or not isinstance(
+                    lst[0], ast.stmt):
+                continue
+            i = 0
+            while i < len(lst):
+                if isinstance(lst[i], ast.Match):
+                    try:
+                        rep = lower(lst[i])
+                    except _NoLowering:
+                        i += 1
+                        continue
+                    lst[i:i + 1] = rep
+                    n += 1
+                    continue     # look at the replacement again (nested)
+                i += 1
+    return n
+
+
+def _leading_walrus(test):
+    """the NamedExpr that is evaluated first, unconditionally, in `test`
+    (the test itself, the left side of a comparison, under `not`, or the
+    first operand of and/or), or None"""
+    if isinstance(test, ast.NamedExpr):
+        return test
+    if isinstance(test, ast.Compare):
+        return _leading_walrus(test.left)
+    if isinstance(test, ast.UnaryOp) and isinstance(test.op, ast.Not):
+        return _leading_walrus(test.operand)
+    if isinstance(test, ast.BoolOp):
+        return _leading_walrus(test.values[0])
+    if isinstance(test, ast.Call) and not isinstance(
+            test.func, ast.NamedExpr) and isinstance(
+                test.func, (ast.Name, ast.Attribute)) and test.args and \
+            _simple_subject(test.func):
+        return _leading_walrus(test.args[0])
+    return None
+
+
+def hoist_walrus(tree):
+    """`if (x := E) is not None:` is `x = E; if x is not None:`;
+    `while (x := E) in S: B` is `while True: x = E; if x not in S: break;
+    B`"""
+    n = 0
+
+    class R(ast.NodeTransformer):
+        def __init__(self, target):
+            self.target = target
+
+        def visit_NamedExpr(self, node):
+            if node is self.target:
+                return ast.copy_location(
+                    ast.Name(node.target.id, ast.Load()), node)
+            return self.generic_visit(node)
+
+    for owner in list(ast.walk(tree)):
+        for fld in ("body", "orelse", "finalbody"):
+            lst = getattr(owner, fld, None)
+            if not isinstance(lst, list) or not lst or not isinstance(
+                    lst[0], ast.stmt):
+                continue
+            i = 0
+            while i < len(lst):
+                st = lst[i]
+                if isinstance(st, ast.If):
+                    w = _leading_walrus(st.test)
+                    if w is not None and isinstance(w.target, ast.Name):
+                        bind = ast.Assign(targets=[ast.Name(
+                            w.target.id, ast.Store())], value=w.value)
+                        ast.copy_location(bind, st)
+                        ast.fix_missing_locations(bind)
+                        st.test = R(w).visit(st.test)
+                        lst.insert(i, bind)
+                        n += 1
+                        continue
+                elif isinstance(st, ast.While) and not st.orelse:
+                    w = _leading_walrus(st.test)
+                    if w is not None and isinstance(w.target, ast.Name):
+                        bind = ast.Assign(targets=[ast.Name(
+                            w.target.id, ast.Store())], value=w.value)
+                        test = R(w).visit(st.test)
+                        brk = ast.If(test=negate(test), body=[ast.Break()],
+                                     orelse=[])
+                        body = [b for b in st.body
+                                if not isinstance(b, ast.Pass)]
+                        st.test = ast.Constant(value=True)
+                        st.body = [bind, brk] + body
+                        for x in (bind, brk):
+                            ast.copy_location(x, st)
+                            ast.fix_missing_locations(x)
+                        n += 1
+                        continue
+                i += 1
+    return n
+
+
 def unwrap_genexp_loops(tree):
     """`for T in (E for V in I if C): B` is `for V in I: if C: T = E; B`
     (one generator, lazily consumed, no name of V bound elsewhere in the
@@ -1024,6 +1280,7 @@ def normalize(tree, modname):
     from . import inline
     ref = reference()
     info = {"noise_removed": strip_noise(tree)}
+    info["match_lowered"] = lower_match(tree) + hoist_walrus(tree)
     info["reshaped"] = canon_shapes(tree)
     info["rotated"] = rotate_loops(tree) + unwrap_genexp_loops(tree)
     if os.environ.get("SA_CANON_FLOW", "1") == "1":
